@@ -79,12 +79,15 @@ template <class T> struct SPxLPBase
 {
    typedef T R;   /* the sliced bodies name the number type R; member typedef so that `p->SPxLPBase<R>::f()` resolves R in p's class scope */
    VectorBase<T> left, right, low, up;
+   VectorBase<T> objr, objc;   /* maxRowObj / maxObj (only read by loadDesc's status repair) */
    int nRows() const { return left.dimen; }
    int nCols() const { return low.dimen; }
    const T& lhs(int i) const { return (*(VectorBase<T>*)&left)[i]; }
    const T& rhs(int i) const { return (*(VectorBase<T>*)&right)[i]; }
    const T& lower(int i) const { return (*(VectorBase<T>*)&low)[i]; }
    const T& upper(int i) const { return (*(VectorBase<T>*)&up)[i]; }
+   const T& maxRowObj(int i) const { return (*(VectorBase<T>*)&objr)[i]; }
+   const T& maxObj(int i) const { return (*(VectorBase<T>*)&objc)[i]; }
    /* stub: the LP is not persistently scaled (_isScaled == false), where the real lowerUnscaled/upperUnscaled return
       the stored bound; only used for the slack basis reported when no basis is available */
    T lowerUnscaled(int i) const { return lower(i); }
@@ -268,6 +271,7 @@ static inline void basis_stub_init(S& s, double* lhs, double* rhs, int nr, doubl
    typedef typename SPxBasisBase<double>::Desc::Status DS;
    s.left.val = lhs; s.left.dimen = nr; s.right.val = rhs; s.right.dimen = nr;
    s.low.val = lower; s.low.dimen = nc; s.up.val = upper; s.up.dimen = nc;
+   s.objr.val = 0; s.objr.dimen = 0; s.objc.val = 0; s.objc.dimen = 0;
    s.theLP = (SPxSolverBase<double>*)&s;
    s.thedesc.rowstat.data = (DS*)rowstat; s.thedesc.rowstat.thesize = nr;
    s.thedesc.colstat.data = (DS*)colstat; s.thedesc.colstat.thesize = nc;
